@@ -3,10 +3,13 @@ package checks
 import (
 	"context"
 	"fmt"
+	"github.com/cenkalti/backoff/v4"
 	"strings"
+	"time"
 
 	"verifharness/ev"
 	"verifharness/memtr"
+	"verifharness/refbmc"
 
 	"github.com/gebn/bmc"
 	"github.com/gebn/bmc/pkg/ipmi"
@@ -25,6 +28,8 @@ type c09Cmd struct {
 type c09Hist struct {
 	Suite int
 	Cmds  []c09Cmd
+	// RealLoss: a lost reply takes the (150 ms) per-attempt timeout, as on a socket
+	RealLoss bool `json:",omitempty"`
 }
 
 type c09Batch struct {
@@ -103,11 +108,16 @@ func c09Gen(tier string, seed int64) []ev.Case {
 	cs = append(cs, ev.MkCase("batch", c09Batch{H: -1, D: gd, Seed: seed}))
 	cs = append(cs, ev.MkCase("batch", c09Batch{H: -2, D: gd, Seed: seed}))
 	cs = append(cs, ev.MkCase("batch", c09Batch{H: -3, D: gd, Seed: seed}))
+	cs = append(cs, ev.MkCase("udpack", c09Batch{Seed: seed}))
 	return cs
 }
 
 func c09Exec(run *ev.Run, c ev.Case) {
 	switch c.Kind {
+	case "udpack":
+		var b c09Batch
+		c.Decode(&b)
+		c09UDPAck(run, b.Seed, c)
 	case "hist":
 		var h c09Hist
 		c.Decode(&h)
@@ -158,6 +168,10 @@ func c09Exec(run *ev.Run, c ev.Case) {
 			// calls made with a context that is already finished, between ordinary commands
 			kinds := []string{"devid", "authcaps", "chassis", "raw", "sl-guid", "sl-authcaps"}
 			idx := 0
+			// replies that stay missing for a whole per-attempt timeout
+			for i, sc := range [][]string{{"lost"}, {"busy", "lost"}, {"garbage:noise", "lost"}} {
+				c09History(run, c09Hist{Suite: i, RealLoss: true, Cmds: []c09Cmd{{Kind: "devid"}, {Kind: kinds[i%4], Script: sc}, {Kind: "devid"}, {Kind: "raw", Script: []string{"busy"}}, {Kind: "sl-guid", Script: []string{"lost"}}, {Kind: "chassis"}}})
+			}
 			// one command retransmitted several hundred times (a BMC that stays busy, a zero back-off)
 			for _, n := range []int{254, 255, 256, 257, 300, 520} {
 				long := make([]string, n)
@@ -320,6 +334,10 @@ func c09History(run *ev.Run, h c09Hist) {
 	cfg := defaultCfg(r)
 	su := stdSuites()[h.Suite%9]
 	se := NewScriptEnv(cfg, memtr.Window)
+	if h.RealLoss {
+		se.T.BlockOnLoss = true
+		se.ST = bmc.VerifNewV2SessionlessTransport(se.T, 300*time.Millisecond, &backoff.ZeroBackOff{})
+	}
 	ctx, cancel := se.LimitCtx(20)
 	sess, err := se.OpenSession(ctx, su)
 	cancel()
@@ -449,5 +467,58 @@ func c09History(run *ev.Run, h c09Hist) {
 	}
 	if len(h.Cmds) <= 3 && len(sig)%41 == 0 {
 		run.Sample(fmt.Sprintf("h%d", len(h.Cmds)), map[string]any{"suite": su.String(), "commands": h.Cmds, "in_session_datagrams": inSession})
+	}
+}
+
+// c09UDPAck: over the real socket, a BMC (or a device in front of it) that sends
+// an RMCP ACK before each reply although none was asked for. Whatever the library
+// does about the ACKs, the in-session datagrams the BMC receives carry 1, 2, 3, ...
+func c09UDPAck(run *ev.Run, seed int64, cs ev.Case) {
+	run.Eval(1)
+	r := rng(seed, "c09udpack")
+	cfg := defaultCfg(r)
+	u, err := newUDPEnv(cfg)
+	if err != nil {
+		run.Inconclusive("udp setup: " + err.Error())
+		return
+	}
+	defer u.Close()
+	u.BMC.Handler = refbmc.Chain(refbmc.Fixed(6, 0x01, 0, []byte{0x20, 0x81, 0x03, 0x15, 0x02, 0xbf, 0x57, 0x01, 0x00, 0x34, 0x12}), refbmc.Fixed(0, 0x01, 0, []byte{0x21, 0x10, 0x40, 0x54}))
+	ctx, cancel := bg(30 * time.Second)
+	defer cancel()
+	sess, err := u.ST.NewV2Session(ctx, &bmc.V2SessionOpts{SessionOpts: bmc.SessionOpts{Username: cfg.Username, Password: cfg.Password, MaxPrivilegeLevel: ipmi.PrivilegeLevelAdministrator}, CipherSuites: []ipmi.CipherSuite{ipmi.CipherSuite3}})
+	if err != nil {
+		run.Violation("C09:handshake-failed", err.Error(), cs, nil)
+		return
+	}
+	u.Srv.SetFault(func(n int, req, reply []byte) ([][]byte, time.Duration) {
+		return [][]byte{{6, 0, 0xff, 0x87}, reply}, 0
+	})
+	for i := 0; i < 4; i++ {
+		cctx, ccancel := context.WithTimeout(ctx, 3*time.Second)
+		if i%2 == 0 {
+			sess.GetDeviceID(cctx)
+		} else {
+			sess.GetChassisStatus(cctx)
+		}
+		ccancel()
+	}
+	u.Srv.SetFault(nil)
+	var seqs []uint32
+	for _, e := range u.BMC.Events() {
+		if e.Kind == "session-ipmi" {
+			seqs = append(seqs, e.Seq)
+		}
+	}
+	run.Event("datagrams-monitored", len(seqs))
+	run.Nontrivial(fmt.Sprintf("udpack|%d", len(seqs) > 4))
+	for i, s := range seqs {
+		if s != uint32(i+1) {
+			run.Violation("C09:wrong-sequence", fmt.Sprintf("over UDP with an unsolicited RMCP ACK ahead of every reply, the BMC received in-session sequence numbers %v (datagram %d carries %d)", seqs, i+1, s), cs, nil)
+			return
+		}
+	}
+	if len(seqs) < 4 {
+		run.Inconclusive(fmt.Sprintf("only %d in-session datagrams reached the BMC", len(seqs)))
 	}
 }
